@@ -271,11 +271,16 @@ func runC18Case(c *Ctx, idx int) *CaseResult {
 	st := GenState(c.Rng(idx, 1))
 	g := &Gen{R: r, Pool: catalogBy(func(v VarSpec) bool { return v.Class != "slice-expr" && v.Class != "map-expr" }), Calls: true, Strs: true, Times: false}
 	var e *Expr
+	if t := idx - len(c18Malformed); t < len(c18LookAlikes) {
+		// constants that print alike but are of different kinds, in otherwise identical rules
+		e = c18LookAlikes[t]
+		cr.inc("look_alike_constant_cases")
+	}
 	depth := 4
 	if c.Tier == "thorough" {
 		depth = 5
 	}
-	for tries := 0; tries < 40; tries++ {
+	for tries := 0; tries < 40 && e == nil; tries++ {
 		ty := []Ty{TInt, TInt, TFloat, TStr, TBool, TBool, TBool, TUint}[r.Intn(8)]
 		raw := g.Expr(ty, 1+r.Intn(depth))
 		// number constants of every magnitude
@@ -564,8 +569,21 @@ func init() {
 		ID: "C18", Level: "exploration",
 		Rule: "typed random operator trees over the 15 operators + set / call / obj / const, depth <=4 (quick) / <=5 (thorough), rendered as JSON with every mix of operand forms (plain string, bare number / boolean, obj / const wrappers, operator objects, n-ary flattening of left spines, one-operand not over operator objects), constants of every kind (strings with quotes, backslashes, control and non-ASCII characters; negative, fractional and large numbers), rule arrays and single rules, via ParseJSONRule(set) and via JSONResource; oracle = the GRL must build, carry name / description / salience, and evaluate (sink into a nil interface field + candidate flag) to the reference value of the tree with operands grouped exactly as nested; a table of malformed rules must be rejected by the translator-plus-builder pipeline through every entry point; non-trivial = distinct trees nesting a lower-precedence operator inside a higher one or carrying a string that needs escapes, plus each malformed kind",
 		Assume: []string{"a one-operand not is logical negation of an operator object (TestJsonNegation); one-operand forms of other operators and of not over obj / plain operands are in neither domain", "plain-string operands are raw GRL text: only atoms are rendered that way", "an integral JSON number denotes an integer"},
-		Cases:  tierN(2500+len(c18Malformed), 80000),
+		Cases:  func(t string) int { return tierN(2500, 80000)(t) + len(c18Malformed) + len(c18LookAlikes) },
 		Run:    runC18Case,
 		Known:  c18Known,
 	})
 }
+
+// c18LookAlikes: T.KindOf(c) and "" + c comparisons for constants whose printed form coincides.
+var c18LookAlikes = func() []*Expr {
+	var out []*Expr
+	for round := 0; round < 3; round++ { // several times: the order in which a process meets them varies
+		for _, l := range []*Expr{LitS("7"), LitI(7), LitS("true"), LitB(true), LitS("1.5"), LitF(1.5), LitS("0"), LitI(0), LitS("false"), LitB(false),
+			LitS("-3"), LitI(-3), LitS("F.A"), LitS("nil"), LitS(""), LitS(" 7"), LitF(7.5), LitS("7.5")} {
+			out = append(out, CallE(tool(), "KindOf", TStr, reflect.String, l))
+			out = append(out, Bin("+", TStr, LitS("k"), l))
+		}
+	}
+	return out
+}()
